@@ -93,5 +93,8 @@ SigintGraceful == (Exited /\ sigsent /\ ~errlogged) => (exit = 0 /\ \A s \in cfg
 \*  with non-zero status and an error on the runtime log"
 ShouldFail == cfg.kind = "badext" \/ cfg.err # "none" \/ cfg.fails \in cfg.svcs
 ErrorsExitNonZero == Exited => ((ShouldFail /\ ~sigsent) => (exit # 0 /\ errlogged))
+\* "keeps all of them alive and running until it is stopped": a valid configuration never
+\* makes the daemon exit by itself
+RunsUntilStopped == Exited => (sigsent \/ ShouldFail)
 ExitZeroOnlyAfterSigint == (Exited /\ exit = 0) => sigsent
 =============================================================================
